@@ -173,11 +173,11 @@ def screen_one(m):
         env.pop("YAML_PYYAML_VERIF", None)
         try:
             r = subprocess.run(["/venv/bin/python", "-m", "pytest", "-q", "-x", "-p", "no:cacheprovider"], cwd=d, env=env,
-                               stdout=subprocess.PIPE, stderr=subprocess.STDOUT, timeout=300, text=True)
+                               stdout=subprocess.PIPE, stderr=subprocess.STDOUT, timeout=1200, text=True)
             tail = r.stdout.strip().splitlines()[-1:] or [""]
             ok = r.returncode == 0 and " passed" in tail[0] and "failed" not in tail[0] and "error" not in tail[0]
         except subprocess.TimeoutExpired:
-            ok, tail = False, ["timeout"]
+            ok, tail = False, ["timeout"]       # a mutant that hangs the suite counts as killed by it
         return dict(m, survived=ok, tail=tail[0][:120])
     finally:
         shutil.rmtree(d, ignore_errors=True)
